@@ -8,5 +8,5 @@ CONSTANTS
     NormTable <- McNormTable
 VIEW view
 INVARIANT ReuseTransparent
-PROPERTIES SegmentsImmutable BitmapsImmutable
+PROPERTIES SegmentsImmutable BitmapsImmutable StatsIndependent
 CHECK_DEADLOCK FALSE
